@@ -6,6 +6,7 @@ import (
 	"sort"
 
 	pgs "github.com/lyft/protoc-gen-star/v2"
+	"google.golang.org/protobuf/reflect/protoregistry"
 	descriptor "google.golang.org/protobuf/types/descriptorpb"
 )
 
@@ -17,6 +18,7 @@ type astRun struct {
 	ast    pgs.AST
 	failed bool
 	msg    string
+	reg    *protoregistry.Files
 }
 
 func buildAST(w wWorld) (run *astRun) {
@@ -43,7 +45,7 @@ func buildAST(w wWorld) (run *astRun) {
 	return run
 }
 
-var noRef = ref{-1, []int{}}
+var noRef = ref{0, []int{999999}}
 
 // refOf maps an AST entity to the declaration whose descriptor it exposes (pointer identity).
 func (r *astRun) refOf(e interface{}) ref {
@@ -268,7 +270,7 @@ func (astEngine) Isolated() bool { return false }
 
 func (e astEngine) opts(g *Gen) (genOpts, int) {
 	o := genOpts{maxFiles: 5, maxDepth: 3, locs: true}
-	n := 400
+	n := 1000
 	if g.Thorough() {
 		n = 6000
 	}
@@ -279,6 +281,9 @@ func (e astEngine) Gen(g *Gen) {
 	o, n := e.opts(g)
 	for _, w := range curatedWorlds() {
 		g.Count("source", "curated")
+		if e.section == "c02" {
+			w.Probes = probeNames(w)
+		}
 		g.Emit(w)
 	}
 	for i := 0; i < n; i++ {
@@ -293,6 +298,9 @@ func (e astEngine) Gen(g *Gen) {
 		}
 		g.Count("protodesc", "accepted")
 		countWorld(g, w)
+		if e.section == "c02" {
+			w.Probes = probeNames(w)
+		}
 		g.Emit(w)
 	}
 }
@@ -352,15 +360,28 @@ func (e astEngine) Run(raw json.RawMessage) (interface{}, error) {
 		return nil, err
 	}
 	r := buildAST(w)
+	if err := r.b.valid(); err != nil {
+		return map[string]interface{}{"invalid_world": err.Error()}, nil
+	}
 	switch e.section {
 	case "c01":
 		return observeNav(r), nil
+	case "c02":
+		return observeC02(r), nil
+	case "c03":
+		return observeC03(r), nil
+	case "c04":
+		return observeC04(r), nil
+	case "c08":
+		return observeC08(r), nil
+	case "c09":
+		return observeC09(r), nil
 	}
 	return nil, fmt.Errorf("unknown section %s", e.section)
 }
 
 func init() {
-	for _, s := range []string{"c01"} {
+	for _, s := range []string{"c01", "c02", "c03", "c04", "c08", "c09"} {
 		register(s, astEngine{s})
 	}
 }
